@@ -562,7 +562,7 @@ def disturb():
 
 DENSE_KINDS = ['octet', 'short', 'long', 'longlong', 'shortstr-ascii',
                'shortstr-2byte', 'shortstr-mixed', 'longstr', 'table-count',
-               'table-strlen', 'array-count', 'channel']
+               'table-strlen', 'table-keylen', 'array-count', 'channel']
 
 
 def _around(points, radius):
@@ -688,6 +688,17 @@ def dense_cases(task, tier):
                 yield m, (0, 'q', False, False, False, False, False,
                           {'s': 'x' * prefix + ch_ * k,
                            'a': ['y' * prefix + ch_ * k]}), 1
+    elif kind == 'table-keylen':
+        # every field-name length up to 128 characters / 255 bytes, for
+        # 1-, 2-, 3- and 4-byte characters, at the top and one level down
+        m = M['Queue.Declare']
+        for ch_, width in (('k', 1), ('é', 2), ('€', 3), ('\U0001F600', 4)):
+            for n in range(0, min(128, 255 // width) + 1):
+                t = {ch_ * n: n, 'in': {ch_ * n: [n]}}
+                yield m, (0, 'q', False, False, False, False, False, t), 1
+            for n in range(0, min(127, 254 // width) + 1):
+                t = {'a' + ch_ * n: n}
+                yield m, (0, 'q', False, False, False, False, False, t), 1
     elif kind == 'array-count':
         m = M['Queue.Declare']
         top = 1200 if thorough else 400
